@@ -164,6 +164,8 @@ func checkIPv6(data) (r)
 module ownership
 props C10 C11 C12 C18
 use nns names
+use nns state
+use nns records
 dialect neovm
 
 // C10/C11: NEP-11 accounting and transfer of names.
@@ -203,20 +205,7 @@ pure okName(s Store, n Bytes) Bool = s.has(nkey(n)) && now < ns(s, n).Expiration
 ufun sfx(f L_NB, i Int) Bytes
 axiom sfxDef: forall f L_NB, i Int {sfx(f, i)} :: 0 <= i && i < len(f) ==> sfx(f, i) == (i == len(f) - 1 ? f[i] : f[i] ++ "." ++ sfx(f, i + 1))
 
-// true iff some name on the chain fragments[first..] is missing or expired (a name is expired from the instant
-// now == Expiration on)
-func parentExpired(ctx, first, fragments) (r)
-  pure
-  requires len(fragments) >= 1 && 0 <= first
-  ensures [C10] !r ==> forall j Int {sfx(fragments, j)} :: first <= j && j < len(fragments) ==> okName(store, sfx(fragments, j))
-  ensures [C10] r ==> exists j Int :: first <= j && j < len(fragments) && !okName(store, sfx(fragments, j))
-  loop 0
-    invariant last == len(fragments) - 1 && i <= last && now == entry(now)
-    invariant (i == last ==> name == fragments[last]) && (i < last ==> name == sfx(fragments, i + 1))
-    invariant i >= 0 && i == last ==> sfx(fragments, i) == name
-    invariant i >= 0 && i < last ==> sfx(fragments, i) == fragments[i] ++ "." ++ name
-    invariant forall j Int {sfx(fragments, j)} :: i < j && j <= last ==> okName(store, sfx(fragments, j))
-
+// (parentExpired: contract of module state)
 // (checkFragment, safeSplitAndCheck and splitAndCheck: contracts of module names)
 
 // C12: a name cannot be registered while its parent holds records for sub-names of it. The parent's records live under
@@ -233,10 +222,7 @@ func getParentConflictingRecord(ctx, name, fragments) (r)
   loop 0
     invariant forall j Int {recAt(store, pprefix(name), j)} :: 0 <= j && j < $it.pos ==> !conflicts(recAt(store, pprefix(name), j).Name, name)
 
-func putSoaRecord(ctx, name, email, refresh, retry, expire, ttl)
-  trusted
-  ensures forall k Bytes {store.opt(k)} :: !prefix("\x22", k) ==> store.opt(k) == old(store).opt(k)
-  ensures notifs == old(notifs)
+// (putSoaRecord: contract of module records)
 
 func updateTotalSupply(ctx, diff)
   ensures [C10] tsupply(store) == old(tsupply(store)) + diff && store.has("\x00")
@@ -358,8 +344,26 @@ func storeRecord(ctx, tokenId, name, typ, id, data)
   ensures [C12] forall k Bytes {store.opt(k)} :: k != rkey(tokenId, name, typ, id) ==> store.opt(k) == old(store).opt(k)
   ensures notifs == old(notifs)
 
+// registration writes the SOA record of the name: type 6, index 0, under the name that holds its records, with the text
+// "<name> <email> <now> <refresh> <retry> <expire> <ttl>"; nothing else changes
+func putSoaRecord(ctx, name, email, refresh, retry, expire, ttl)
+  ensures [C12] store.has(rkey(tokenOf(old(store), name), name, 6, 0))
+        && deser_RecordState(store.get(rkey(tokenOf(old(store), name), name, 6, 0))) == RecordState{name, 6,
+             name ++ " " ++ email ++ " " ++ itoa(now) ++ " " ++ itoa(refresh) ++ " " ++ itoa(retry) ++ " " ++ itoa(expire) ++ " " ++ itoa(ttl), 0}
+  ensures [C12] forall k Bytes {store.opt(k)} :: k != rkey(tokenOf(old(store), name), name, 6, 0) ==> store.opt(k) == old(store).opt(k)
+  ensures forall k Bytes {store.opt(k)} :: !prefix("\x22", k) ==> store.opt(k) == old(store).opt(k)
+  ensures notifs == old(notifs)
+
+// every mutation refreshes the SOA serial of the name that holds the records: the SOA record (type 6, index 0) of the
+// token keeps its name, type, index and the other six fields of its text; the third field becomes the current time
+pure soaRec(s Store, t Bytes) RecordState = deser_RecordState(s.get(skey_(t)))
+pure soaF(s Store, t Bytes) L_NB = splitne(soaRec(s, t).Data, " ")
 func updateSoaSerial(ctx, tokenId)
-  trusted
+  ensures [C12] old(store).has(skey_(tokenId)) && len(soaF(old(store), tokenId)) == 7
+  ensures [C12] store.has(skey_(tokenId)) && soaRec(store, tokenId).Name == soaRec(old(store), tokenId).Name
+        && soaRec(store, tokenId).Type == soaRec(old(store), tokenId).Type && soaRec(store, tokenId).ID == soaRec(old(store), tokenId).ID
+  ensures [C12] soaRec(store, tokenId).Data == soaF(old(store), tokenId)[0] ++ " " ++ soaF(old(store), tokenId)[1] ++ " " ++ itoa(now) ++ " "
+        ++ soaF(old(store), tokenId)[3] ++ " " ++ soaF(old(store), tokenId)[4] ++ " " ++ soaF(old(store), tokenId)[5] ++ " " ++ soaF(old(store), tokenId)[6]
   ensures forall k Bytes {store.opt(k)} :: k != skey_(tokenId) ==> store.opt(k) == old(store).opt(k)
   ensures notifs == old(notifs)
 
@@ -529,7 +533,7 @@ func tokenIDFromName(ctx, name) (r)
 
 /*@
 module state
-props C11 C12
+props C10 C11 C12
 dialect neovm
 
 // C11: who may change a name. adminOK(n) is the rule of the property statement read on a stored record n:
@@ -562,7 +566,8 @@ axiom sfxDef: forall f L_NB, i Int {sfx(f, i)} :: 0 <= i && i < len(f) ==> sfx(f
 func parentExpired(ctx, first, fragments) (r)
   pure
   requires len(fragments) >= 1 && 0 <= first
-  ensures !r ==> forall j Int {sfx(fragments, j)} :: first <= j && j < len(fragments) ==> okName(store, sfx(fragments, j))
+  ensures [C10] !r ==> forall j Int {sfx(fragments, j)} :: first <= j && j < len(fragments) ==> okName(store, sfx(fragments, j))
+  ensures [C10] r ==> exists j Int :: first <= j && j < len(fragments) && !okName(store, sfx(fragments, j))
   loop 0
     invariant last == len(fragments) - 1 && i <= last && now == entry(now)
     invariant (i == last ==> name == fragments[last]) && (i < last ==> name == sfx(fragments, i + 1))
@@ -710,15 +715,15 @@ module upgrade
 props C16
 use common core
 use common vote
-use nns names
-use nns ownership
 dialect neovm
 
 // C16: an upgrade runs only from a supported older version: oldest supported <= deployed version < new version.
 pure lastarg(d Any) Int = asint(aslist(d)[len(aslist(d)) - 1])
 
+// (this contract speaks about update invocations only: the first deployment registers the predefined TLDs, which is C10/C18)
 func _deploy(data, isUpdate)
-  ensures [C16] isUpdate ==> PrevVersion <= lastarg(data) && lastarg(data) < Version
+  requires isUpdate
+  ensures [C16] PrevVersion <= lastarg(data) && lastarg(data) < Version
   loop 0
     invariant true
   loop 1
